@@ -58,6 +58,22 @@ package utxo
 //@   ensures [C01] only_the_total_key_is_written: (forall k string :: k != xldgpb.MetaTablePrefix + UTXOTotalKey ==> sel(sel(batchOp, ifacePtr(batch)), k) == sel(sel(old(batchOp), ifacePtr(batch)), k) && sel(sel(batchVal, ifacePtr(batch)), k) == sel(sel(old(batchVal), ifacePtr(batch)), k))
 //@   ensures total_in_batch: sel(bigval, uv.utxoTotal) >= 0 ==> sel(sel(batchVal, ifacePtr(batch)), xldgpb.MetaTablePrefix + UTXOTotalKey) == canonBytes(sel(bigval, uv.utxoTotal))
 
+// The utxo cache vouches for the existence of an output (CheckInputEqualOutput trusts `All`
+// before the table; SelectUtxos hands out from `Available`). Once an output is removed -
+// spent, undone, evicted - it is in neither map, whether or not a selection had already
+// marked it used. cacheWF: entries are never nil and the two maps share no bucket.
+//@ macro inAll(c, a, k) = in(c.All, a) && in(c.All[a], k)
+//@ macro inAvail(c, a, k) = in(c.Available, a) && in(c.Available[a], k)
+//@ macro cacheWF(c) = c.All != nil && c.Available != nil && (forall a string, k string :: inAll(c, a, k) ==> c.All[a][k] != nil) && (forall a string, b string :: in(c.All, a) && in(c.Available, b) ==> c.All[a] != c.Available[b])
+//@ func UtxoCache.remove
+//@   property C02
+//@   ensures removed_output_is_vouched_for_by_neither_map: old(cacheWF(uv)) ==> !inAll(uv, address, utxoKey) && !inAvail(uv, address, utxoKey)
+//@   ensures [C03] removed_output_cannot_be_cited_again: old(cacheWF(uv)) ==> !inAll(uv, address, utxoKey) && !inAvail(uv, address, utxoKey)
+//@ func UtxoCache.Remove
+//@   property C02
+//@   ensures removed_output_is_vouched_for_by_neither_map: old(cacheWF(uv)) ==> !inAll(uv, address, utxoKey) && !inAvail(uv, address, utxoKey)
+//@   ensures [C03] removed_output_cannot_be_cited_again: old(cacheWF(uv)) ==> !inAll(uv, address, utxoKey) && !inAvail(uv, address, utxoKey)
+
 // When a batch is dropped the reported total goes back to what the table holds: the stored
 // value, or zero if no total was ever stored - never what memory happened to hold.
 //@ func UtxoVM.ReloadUtxoTotal
